@@ -37,6 +37,9 @@ def stages(tier, rng, only=None):
         grids.datasets(3, 2)[::5] + [ac.random_dataset(rng, 7, 6, nmin=4) for _ in range(n_rand)]
         + [ac.cyclic_dataset(rng, 4, 6) for _ in range(n_rand // 2)], BIO, SCHEMES, rng, flags=(1, 0), reverse=True),
         _nt))
+    out.append(ac.stage("tied_heavy", PID, lambda: ac.cases(
+        [ac.tied_heavy_dataset(rng, with_empty=k % 3 == 0) for k in range(n_rand)], BIO,
+        SCHEMES + [ac.QUARTER], namings=["ints", "letters"]), _nt))
     out.append(ac.stage("larger", PID, lambda: ac.cases([ac.larger_dataset(rng, 10, 25) for _ in range(n_rand // 8)], BIO,
                                                         SCHEMES, namings=["ints", "letters"]), _nt))
     out.append(ac.stage("huge_penalties", PID, lambda: ac.huge_cases(
